@@ -1020,6 +1020,29 @@ func genFunctionWrapper(n *node) func(*frame) reflect.Value {
 			return v
 		}
 
+		// A method value binds its receiver when it is evaluated, not when it is
+		// called (possibly later, or from another goroutine).
+		var recv reflect.Value
+		if rcvr != nil {
+			recv = rcvr(f)
+			for {
+				vs, ok := recv.Interface().(valueInterface)
+				if !ok {
+					break
+				}
+				recv = vs.value
+			}
+			sk, dk := recv.Kind(), def.types[numRet].Kind()
+			switch {
+			case sk == reflect.Ptr && dk != reflect.Ptr:
+				recv = copyValue(recv.Elem())
+			case sk != reflect.Ptr && dk == reflect.Ptr:
+				recv = recv.Addr()
+			default:
+				recv = copyValue(recv)
+			}
+		}
+
 		return reflect.MakeFunc(funcType, func(in []reflect.Value) []reflect.Value {
 			// Allocate and init local frame. All values to be settable and addressable.
 			fr := newFrame(f, len(def.types), f.runid())
@@ -1032,24 +1055,7 @@ func genFunctionWrapper(n *node) func(*frame) reflect.Value {
 				d = d[numRet:]
 			} else {
 				// Copy method receiver as first argument.
-				src, dest := rcvr(f), d[numRet]
-				sk, dk := src.Kind(), dest.Kind()
-				for {
-					vs, ok := src.Interface().(valueInterface)
-					if !ok {
-						break
-					}
-					src = vs.value
-					sk = src.Kind()
-				}
-				switch {
-				case sk == reflect.Ptr && dk != reflect.Ptr:
-					dest.Set(src.Elem())
-				case sk != reflect.Ptr && dk == reflect.Ptr:
-					dest.Set(src.Addr())
-				default:
-					dest.Set(src)
-				}
+				d[numRet].Set(recv)
 				d = d[numRet+1:]
 			}
 
